@@ -2,12 +2,16 @@
 //
 // Explicit-state search (engine E2) over sequences of API actions issued, through the generated
 // operation handlers configured by the real dag.Handler, against real stores in a scratch
-// installation: 2 DAGs with 2 recorded runs each, the addressed DAG in every base state (never run,
+// installation: 2 DAGs with 2-3 recorded runs each, the addressed DAG in every base state (never run,
 // finished, failed, canceled, crashed, running = a live in-process agent.Run with a hanging scripted
-// step and the real unix-socket server). The executable of the client is a recording stub (this
-// binary under another name). After every action the answer class and a full dump of the
-// installation (all history records of all DAGs, all definitions, suspend flags, stub log), read
-// from disk, are compared with a reference model that encodes the sentences of the property.
+// step and the real unix-socket server), plus base states with three runs of the addressed DAG whose
+// request ids are distinct in / share / are nested prefixes around the 8 characters the history store
+// puts into a run's file name. The executable of the client is a recording stub (this binary under
+// another name). After every action the answer class and a full dump of the installation — all history
+// records of all DAGs, all definitions, suspend flags, stub log, read from disk, and the whole history
+// as the HistoryStore interface returns it (every run looked up by request id, recent list, latest
+// status; through the handler's store instance and a fresh one) — are compared with a reference model
+// that encodes the sentences of the property.
 //
 // Members with a live agent run in a child process of this binary: on the pinned tree the agent's
 // end-of-run status writer can race with historyStore.Close and crash the process; such a crash is
@@ -83,6 +87,12 @@ func runMember(dir string, mb member) (oc outcome) {
 	}()
 	m := newModel(b)
 	prev := w.dump()
+	if what := historyMismatch(m, prev); what != "" {
+		// no action issued yet: not this property's verdict, but the harness cannot go on from a base state
+		// whose history is not returned as it was recorded
+		oc.CheckError = fmt.Sprintf("base state %s: the recorded history is not returned as recorded: %s", mb.Base, what)
+		return
+	}
 	extra := "" // marks on the model state that come from silent actions (definition text, suspend flag)
 	oc.States = append(oc.States, mb.Base+"|"+m.key())
 	for i, key := range mb.Actions {
@@ -230,7 +240,7 @@ func judge(w *world, m *refModel, a action, req string, ex expect, accepted bool
 			if malformed {
 				kind = "malformed"
 			}
-			return fmt.Sprintf("C20/%s/%s-but-changed-%s/%s", ac, kind, where(ch[0].Path, a.Dag, "", -1), tf(malformed, argc, st)),
+			return fmt.Sprintf("C20/%s/%s-but-changed-%s/%s", ac, kind, where(prev, ch[0].Path, a.Dag, "", -1), tf(malformed, argc, st)),
 				fmt.Sprintf("answer %s (%s) but the installation changed: %s", info, ex.Why, fmtChanges(ch, 8))
 		}
 		return "", ""
@@ -238,7 +248,7 @@ func judge(w *world, m *refModel, a action, req string, ex expect, accepted bool
 		if !accepted {
 			// the property states when an action must be refused, not that it must be accepted otherwise
 			if len(ch) > 0 {
-				return fmt.Sprintf("C20/%s/refused-but-changed-%s/%s", ac, where(ch[0].Path, a.Dag, "", -1), st), fmt.Sprintf("answer %s but the installation changed: %s", info, fmtChanges(ch, 8))
+				return fmt.Sprintf("C20/%s/refused-but-changed-%s/%s", ac, where(prev, ch[0].Path, a.Dag, "", -1), st), fmt.Sprintf("answer %s but the installation changed: %s", info, fmtChanges(ch, 8))
 			}
 			return "", ""
 		}
@@ -250,8 +260,11 @@ func judge(w *world, m *refModel, a action, req string, ex expect, accepted bool
 		}
 		return "", "" // accepted stop: what it does to the run is not this property's business
 	default: // silent
+		if accepted && ex.Kind == "retry" {
+			return judgeRetry(w, a, ex, ch)
+		}
 		if !accepted && len(ch) > 0 {
-			return fmt.Sprintf("C20/%s/refused-but-changed-%s/%s", ac, where(ch[0].Path, a.Dag, "", -1), st), fmt.Sprintf("answer %s but the installation changed: %s", info, fmtChanges(ch, 8))
+			return fmt.Sprintf("C20/%s/refused-but-changed-%s/%s", ac, where(prev, ch[0].Path, a.Dag, "", -1), st), fmt.Sprintf("answer %s but the installation changed: %s", info, fmtChanges(ch, 8))
 		}
 		return "", ""
 	}
@@ -272,7 +285,7 @@ func judgeStart(w *world, a action, prev dump, ch []change) (string, string) {
 			calls = append(calls, c)
 			continue
 		}
-		return fmt.Sprintf("C20/start/accepted-start-changed-%s", where(c.Path, a.Dag, "", -1)), "an accepted start changed more than spawning the command: " + fmtChanges(ch, 8)
+		return fmt.Sprintf("C20/start/accepted-start-changed-%s", where(prev, c.Path, a.Dag, "", -1)), "an accepted start changed more than spawning the command: " + fmtChanges(ch, 8)
 	}
 	if len(calls) != 1 {
 		return "C20/start/spawned-more-than-once", fmt.Sprintf("%d invocations of the executable: %s", len(calls), fmtChanges(calls, 4))
@@ -312,35 +325,199 @@ func judgeStart(w *world, a action, prev dump, ch []change) (string, string) {
 	return "", ""
 }
 
+// judgeRetry: an accepted retry hands exactly the addressed run (the given request id) of the addressed DAG to the
+// command, once. (Whether a retry is admissible, and anything else it does, is not stated by the property.)
+func judgeRetry(w *world, a action, ex expect, ch []change) (string, string) {
+	var calls []change
+	for _, c := range ch {
+		if strings.HasPrefix(c.Path, "stub:") && c.Old == "<absent>" {
+			calls = append(calls, c)
+		}
+	}
+	want := []string{"retry", "--req=" + ex.Run, w.loc(a.Dag)}
+	if len(calls) != 1 {
+		return "C20/retry/not-spawned-exactly-once", fmt.Sprintf("%d invocations of the executable after an accepted retry of run %s: %s", len(calls), ex.Run, fmtChanges(calls, 4))
+	}
+	var argv []string
+	_ = json.Unmarshal([]byte(calls[0].New), &argv)
+	if strings.Join(argv, "\x00") != strings.Join(want, "\x00") {
+		return "C20/retry/other-run-or-command/" + strings.Trim(argClass(a), "()"), fmt.Sprintf("an accepted retry of run %s must reach the executable as %q, got %q", ex.Run, want, argv)
+	}
+	return "", ""
+}
+
+// relabelling: top-level Status 1 -> 2 / StatusText "running" -> "failed" of a run.
+func isRelabel(rest string, c change) bool {
+	return (rest == "Status" && c.Old == "1" && c.New == "2") || (rest == "StatusText" && c.Old == `"running"` && c.New == `"failed"`)
+}
+
 // judgeEdit: exactly the addressed step of exactly the addressed run changed (apart from relabelling as failed
-// a run still recorded as running whose process is gone).
+// a run still recorded as running whose process is gone) — on disk and in everything the history store returns
+// (lookup of every request id, recent list, latest status; through the handler's store instance and a fresh one).
 func judgeEdit(m *refModel, ex expect, prev, cur dump, ch []change) (string, string) {
+	sig, detail := judgeEdit1(m, ex, prev, cur, ch)
+	if sig != "" && sig != "C20/edit/relabelled-live-run-as-failed" {
+		if d := m.D[ex.Dag]; d != nil {
+			sig += idRelation(ex.Run, d.Runs)
+		}
+	}
+	return sig, detail
+}
+
+func judgeEdit1(m *refModel, ex expect, prev, cur dump, ch []change) (string, string) {
 	pfx := fmt.Sprintf("run:%s:%s:Nodes[%d].", ex.Dag, ex.Run, ex.StepIdx)
 	if name := prev[pfx+"Step.Name"]; name != fmt.Sprintf("%q", ex.Step) {
 		return "", "" // (cannot happen: the model's step table is the recorded one)
 	}
 	text := map[int]string{nodeSuccess: `"finished"`, nodeError: `"failed"`}
 	wantS, wantT := fmt.Sprint(ex.To), text[ex.To]
+	stepS, stepT := fmt.Sprintf("Nodes[%d].Status", ex.StepIdx), fmt.Sprintf("Nodes[%d].StatusText", ex.StepIdx)
 	for _, c := range ch {
-		switch {
-		case c.Path == pfx+"Status" || c.Path == pfx+"StatusText":
+		dg, run, rest, ok := locate(c.Path, prev)
+		view := ""
+		if isView(c.Path) {
+			view = "(as-returned-by-the-store)"
+		}
+		if ok && dg == ex.Dag && run == ex.Run && (rest == stepS || rest == stepT) {
 			continue
-		case strings.HasPrefix(c.Path, "run:") && strings.HasSuffix(c.Path, ":Status") && strings.Count(c.Path, ":") == 3 && c.Old == "1" && c.New == "2",
-			strings.HasPrefix(c.Path, "run:") && strings.HasSuffix(c.Path, ":StatusText") && strings.Count(c.Path, ":") == 3 && c.Old == `"running"` && c.New == `"failed"`:
+		}
+		if ok && run != "" && isRelabel(rest, c) {
 			// relabelling of a run still recorded as running — allowed only when its process is gone
-			p := strings.SplitN(c.Path, ":", 4)
-			if d := m.D[p[1]]; d != nil && d.State == "running" {
+			if d := m.D[dg]; d != nil && d.State == "running" {
 				return "C20/edit/relabelled-live-run-as-failed", "a status edit relabelled a live run as failed: " + fmtChanges(ch, 8)
 			}
 			continue
 		}
-		return "C20/edit/changed-" + where(c.Path, ex.Dag, ex.Run, ex.StepIdx), fmt.Sprintf("an accepted edit of step %s of run %s changed more than that step's status: %s", ex.Step, ex.Run, fmtChanges(ch, 8))
+		return "C20/edit/changed-" + where(prev, c.Path, ex.Dag, ex.Run, ex.StepIdx) + view, fmt.Sprintf("an accepted edit of step %s of run %s changed more than that step's status: %s", ex.Step, ex.Run, fmtChanges(ch, 8))
 	}
-	// the addressed step must now carry the requested status
+	// the addressed step must now carry the requested status: on disk ...
 	if cur[pfx+"Status"] != wantS || cur[pfx+"StatusText"] != wantT {
 		return "C20/edit/addressed-step-not-changed", fmt.Sprintf("after the accepted edit step %s of run %s has Status=%s StatusText=%s, expected %s %s", ex.Step, ex.Run, cur[pfx+"Status"], cur[pfx+"StatusText"], wantS, wantT)
 	}
+	// ... and in what a lookup of the run by its request id returns
+	for _, inst := range viewInstances {
+		k := fmt.Sprintf("find[%s]:%s:%s:", inst, ex.Dag, ex.Run)
+		if _, looked := cur[k+"RequestId"]; !looked && inst != "api" && cur[strings.TrimSuffix(k, ":")] == "" {
+			continue // not looked up through this instance
+		}
+		if cur[k+stepS] != wantS || cur[k+stepT] != wantT {
+			return "C20/edit/addressed-step-not-changed(as-returned-by-the-store)", fmt.Sprintf("after the accepted edit the lookup of run %s by request id (%s store instance) returns step %s with Status=%s StatusText=%s, expected %s %s", ex.Run, inst, ex.Step, cur[k+stepS], cur[k+stepT], wantS, wantT)
+		}
+	}
+	// the whole history as the store returns it is the history of the reference model
+	if what := historyMismatch(m, cur); what != "" {
+		return "C20/edit/history-differs-from-model", "after the accepted edit: " + what
+	}
 	return "", ""
+}
+
+var viewInstances = []string{"api", "fresh"}
+
+// historyMismatch compares what the history store returns (every view in the dump) with the reference model:
+// per DAG of the model the recent list holds exactly the model's runs, newest first; a lookup of each of them by
+// request id, the entry of the recent list and (for the newest) the latest status carry, leaf by leaf, the status
+// recorded for that run on disk; ids of other DAGs and the unknown id are not found. A run recorded as running
+// whose process is gone may be shown relabelled as failed. "" = no mismatch.
+func historyMismatch(m *refModel, d dump) string {
+	// index: "<kind>:<dag>:<run or position>" (latest: "<kind>:<dag>") -> JSON path -> value
+	idx := map[string]map[string]string{}
+	for k, v := range d {
+		p := strings.SplitN(k, ":", 4)
+		var head, rest string
+		switch {
+		case strings.HasPrefix(k, "latest[") && len(p) >= 3:
+			head, rest = p[0]+":"+p[1], strings.Join(p[2:], ":")
+		case len(p) == 4 && (p[0] == "run" || strings.HasPrefix(p[0], "find[") || strings.HasPrefix(p[0], "recent[")):
+			head, rest = p[0]+":"+p[1]+":"+p[2], p[3]
+		default:
+			continue
+		}
+		if idx[head] == nil {
+			idx[head] = map[string]string{}
+		}
+		idx[head][rest] = v
+	}
+	leaves := func(prefix string) map[string]string { return idx[strings.TrimSuffix(prefix, ":")] }
+	same := func(what string, got, want map[string]string, live bool) string {
+		if len(got) == 0 {
+			return what + " returns nothing"
+		}
+		for k, v := range want {
+			g, ok := got[k]
+			if ok && g == v {
+				continue
+			}
+			if ok && !live && isRelabel(k, change{Old: v, New: g}) {
+				continue
+			}
+			return fmt.Sprintf("%s: %s is %s, recorded is %s", what, k, clip(g), clip(v))
+		}
+		for k := range got {
+			if _, ok := want[k]; !ok {
+				return fmt.Sprintf("%s: has %s, the recorded status has not", what, k)
+			}
+		}
+		return ""
+	}
+	for _, name := range []string{"d1", "d2", "d3"} {
+		dm := m.D[name]
+		if dm == nil {
+			continue
+		}
+		live := dm.State == "running"
+		var newestFirst []string
+		for i := len(dm.Runs) - 1; i >= 0; i-- {
+			newestFirst = append(newestFirst, dm.Runs[i])
+		}
+		own := map[string]bool{}
+		for _, inst := range viewInstances {
+			if got, want := d[fmt.Sprintf("recent[%s]:%s", inst, name)], strings.Join(newestFirst, ","); got != want {
+				return fmt.Sprintf("the recent-history list of %s (%s store instance) holds runs [%s], the model [%s]", name, inst, got, want)
+			}
+			for pos, id := range newestFirst {
+				own[id] = true
+				rec := leaves(fmt.Sprintf("run:%s:%s:", name, id))
+				if len(rec) == 0 {
+					return fmt.Sprintf("run %s of %s is not on record on disk", id, name)
+				}
+				fk := fmt.Sprintf("find[%s]:%s:%s", inst, name, id)
+				found := leaves(fk + ":")
+				if d[fk] == "not found" || (inst == "api" && len(found) == 0) {
+					return fmt.Sprintf("lookup of run %s of %s by request id (%s store instance) finds nothing", id, name, inst)
+				}
+				if len(found) > 0 { // (through the fresh instance only the runs of the DAG the edits address are looked up)
+					if s := same(fmt.Sprintf("lookup of run %s of %s by request id (%s store instance)", id, name, inst), found, rec, live); s != "" {
+						return s
+					}
+				}
+				if s := same(fmt.Sprintf("entry %d of the recent-history list of %s (%s store instance)", pos, name, inst), leaves(fmt.Sprintf("recent[%s]:%s:%d:", inst, name, pos)), rec, live); s != "" {
+					return s
+				}
+				if pos == 0 {
+					if s := same(fmt.Sprintf("latest status of %s (%s store instance)", name, inst), leaves(fmt.Sprintf("latest[%s]:%s:", inst, name)), rec, live); s != "" {
+						return s
+					}
+				}
+			}
+			if len(newestFirst) == 0 {
+				if v := d[fmt.Sprintf("latest[%s]:%s", inst, name)]; !strings.HasPrefix(v, "none") {
+					return fmt.Sprintf("latest status of %s (%s store instance) is %q, the model has no run", name, inst, v)
+				}
+			}
+			// request ids that are not runs of this DAG are not found under it
+			for k, v := range d {
+				pre := fmt.Sprintf("find[%s]:%s:", inst, name)
+				if !strings.HasPrefix(k, pre) {
+					continue
+				}
+				id := strings.SplitN(k[len(pre):], ":", 2)[0]
+				if !own[id] && v != "not found" {
+					return fmt.Sprintf("lookup of request id %s under %s (%s store instance) returns a status (%s), it is not a run of that DAG", id, name, inst, clip(k+"="+v))
+				}
+			}
+		}
+	}
+	return ""
 }
 
 // ---- driver ------------------------------------------------------------------------
@@ -510,9 +687,16 @@ func main() {
 	// enumeration: depth 1 from every base state; depth 2 from the bases without a live agent (quick)
 	// or from every base state (thorough)
 	idx := 0
+	only := os.Getenv("VERIF_C20_ONLY") // development aid: only the base states whose name contains this
 	for _, b := range bases {
-		depth2 := fl.Thorough() || !b.live()
+		if only != "" && !strings.Contains(b.Name, only) {
+			continue
+		}
+		depth2 := fl.Thorough() || (!b.live() && !b.Depth1Quick)
 		for _, a1 := range alphabet {
+			if !applicable(b, a1) {
+				continue
+			}
 			idx++
 			if fl.Mine(idx) {
 				c.check(member{Base: b.Name, Actions: []string{a1.Key}}, idx%97 == 3)
@@ -521,6 +705,9 @@ func main() {
 				continue
 			}
 			for _, a2 := range alphabet {
+				if !applicable(b, a2) {
+					continue
+				}
 				idx++
 				if fl.Mine(idx) {
 					c.check(member{Base: b.Name, Actions: []string{a1.Key, a2.Key}}, idx%1733 == 11)
@@ -540,9 +727,12 @@ func main() {
 	}
 	res.Bounds["actions_per_sequence_le"] = 2
 	res.Bounds["depth_2_from_bases_with_a_live_run"] = fl.Thorough()
+	res.Bounds["depth_2_from_bases_3-runs/finished/ids-nested-rev_and_3-runs/crashed/ids-shared-8"] = fl.Thorough()
+	res.Bounds["recorded_runs_per_dag_le"] = 3
+	res.Bounds["request_id_families"] = []string{"distinct in the first 8 characters", "sharing the first 8 characters", "nested prefixes of 4 / 6 / 36 characters, shortest oldest", "the same, shortest newest"}
 	res.Bounds["alphabet_size"] = len(alphabet)
 	res.Bounds["base_states"] = len(bases)
-	res.Rule = "member = (base state of the installation, sequence of <=2 API actions of the alphabet); every member is executed on a fresh real installation through the generated operation handlers; states = distinct (base, model state, digest of the dump) reached; non-trivial = at least one action"
+	res.Rule = "member = (base state of the installation, sequence of <=2 API actions of the alphabet; the 3 actions addressing the middle run only from the bases with three runs of d1); every member is executed on a fresh real installation through the generated operation handlers; states = distinct (base, model state, digest of the dump) reached; non-trivial = at least one action"
 	res.Assume("the executable spawned by start/retry is a recording stub: an accepted start does not lead to a real run")
 	res.Assume("the running state is a live in-process agent.Run whose first step hangs in the scripted executor (real unix-socket server, real history writes)")
 	res.Assume("today-dependent: recorded runs are dated a few seconds before the member starts; members are kept clear of the first seconds after 00:00 UTC")
